@@ -21,6 +21,9 @@ type Conformance struct {
 	// StepsSinceYield support for C14
 	SinceYield    int
 	MaxSinceYield int
+	// OnStarve is called once when StarveLimit evaluation steps passed without a yield (logical time)
+	StarveLimit int
+	OnStarve    func()
 }
 
 func NewConformance() *Conformance { return &Conformance{Kinds: map[string]int64{}} }
@@ -33,6 +36,9 @@ func (m *Conformance) Attach(ev *evaluator.Evaluator) {
 			m.SinceYield++
 			if m.SinceYield > m.MaxSinceYield {
 				m.MaxSinceYield = m.SinceYield
+			}
+			if m.OnStarve != nil && m.SinceYield == m.StarveLimit {
+				m.OnStarve()
 			}
 		},
 		Exit: m.exit,
